@@ -444,10 +444,9 @@ tfpdeftests:
 	}
 |	tfpdeftests ',' tfpdeftest
 	{
+		// keyword only arguments: one entry per argument, nil if it has no default
 		$$ = append($$, $3)
-		if $<expr>3 != nil {
-			$<exprs>$ = append($<exprs>$, $<expr>3)
-		}
+		$<exprs>$ = append($<exprs>$, $<expr>3)
 	}
 
 tfpdeftests1:
@@ -537,10 +536,9 @@ vfpdeftests:
 	}
 |	vfpdeftests ',' vfpdeftest
 	{
+		// keyword only arguments: one entry per argument, nil if it has no default
 		$$ = append($$, $3)
-		if $<expr>3 != nil {
-			$<exprs>$ = append($<exprs>$, $<expr>3)
-		}
+		$<exprs>$ = append($<exprs>$, $<expr>3)
 	}
 
 vfpdeftests1:
